@@ -152,10 +152,23 @@ def _pipeline(vc, shape):
     if shape == "square":                       # a <- b = multiply(a, a)
         b = circ("b", a, a)
         return b, [a, b], {b: [a, a]}
+    if shape == "triangle":                     # a <- b = conj(a), (a, b) <- c = multiply(a, conj(a)): a is an operand of the root AND of an operand
+        b = circ("b", a)
+        c = circ("c", a, b)
+        return c, [a, b, c], {b: [a], c: [a, b]}
+    if shape == "triangle_other_order":         # the same with the operands of the root listed the other way round
+        b = circ("b", a)
+        c = circ("c", b, a)
+        return c, [a, b, c], {b: [a], c: [b, a]}
+    if shape == "deep_shortcut":                # a <- b <- c <- d and d also reads a directly
+        b = circ("b", a)
+        c = circ("c", b)
+        d = circ("d", a, c)
+        return d, [a, b, c, d], {b: [a], c: [b], d: [a, c]}
     raise ValueError(shape)
 
 
-for _shape in ("chain", "diamond", "square"):
+for _shape in ("chain", "diamond", "square", "triangle", "triangle_other_order", "deep_shortcut"):
     for _pre in ("none", "first", "all_but_root"):
         def _h(vc, _shape=_shape, _pre=_pre):
             """compile_pipeline: operands first, each circuit once, earlier compilations kept"""
@@ -192,7 +205,7 @@ for _shape in ("chain", "diamond", "square"):
             rhs = bm.fields["_rhs_map"]
             vc.ensure("bijection", len(lhs) == len(rhs) and all(rhs[v] is k for k, v in lhs.items()))
         obligation(f"C18.compile_pipeline.{_shape}.{_pre}", "C18", [f"{TC}:TorchCompiler.compile_pipeline", f"{SCI}:pipeline_topological_ordering",
-                                                                    f"{UA}:topological_ordering", f"{UA}:bfs", f"{UA}:BiMap.add"])(_h)
+                                                                    f"{UA}:BiMap.add"])(_h)
 
 
 # ------------------------------------------------------------------------------------------------ contexts
